@@ -7,3 +7,5 @@ open SSVerif.AcmodBuf
 #print axioms C07_ring_safe_open
 #print axioms C07_ring_safe
 #print axioms C07_consts_ok
+#print axioms C07_full_features_canonical
+#print axioms C07_full_equals_streaming_windows
